@@ -2,7 +2,8 @@
 from fractions import Fraction
 
 import compat  # noqa: F401
-from props.c03 import (SchedProp, gen_backtrack_case, gen_checks, gen_random_sched, gen_rows, gen_template, mk_checks, mk_sched,
+from props.c03 import (ACC_TYPES, CONV_PROBES, ELEM, SchedProp, gen_backtrack_case, gen_checks, gen_pass_case, gen_pass_conv_case,
+                       gen_pass_expr_case, template_of, gen_random_sched, gen_rows, gen_template, mk_checks, mk_sched,
                        mk_tmpl, of_sched)
 
 ENTRIES_BELOW = 1000   # clause of the correspondence claim for the floating-point matcher (finding D27)
@@ -355,6 +356,13 @@ class C16(SchedProp):
             yield gen_check_case(rng)
         for _ in range(nb):
             yield gen_backtrack_case(rng, tier)
+        # the real dart-scheduler pass: what it EMITS must fit the accelerator's template and satisfy the two constraints the
+        # pass requests (with the operands' element sizes), for every operation of the module
+        yield from CONV_PROBES
+        for _ in range(14 if tier == "quick" else 250):
+            yield gen_pass_conv_case(rng)
+        for _ in range(40 if tier == "quick" else 600):
+            yield gen_pass_case(rng) if rng.random() < 0.6 else gen_pass_expr_case(rng)
         yield from SCHEDULER_PROBES
         for _ in range(500 if tier == "quick" else 6000):
             yield gen_scheduler_case(rng, tier)
@@ -374,6 +382,7 @@ class C16(SchedProp):
             yield gen_check_case(rng)
             yield gen_backtrack_case(rng, "thorough")
             yield gen_scheduler_case(rng, "thorough")
+            yield gen_pass_conv_case(rng)
 
     def oracle(self, case, impl_out):
         out = []
@@ -388,6 +397,22 @@ class C16(SchedProp):
                                     f"{'equal' if exact else 'different'} (exact rational arithmetic)"
                                     + (" [|entries| >= 1000]" if big else ""),
                             "finding": ("D27" if exact else "D27b") if big else None})
+        elif kind == "pass":
+            scheds = impl_out["schedules"]
+            if len(scheds) != len(case["ops"]):
+                return [{"what": f"{len(case['ops'])} operations but {len(scheds)} ops after dart-scheduler", "finding": None}]
+            tj = template_of(case)
+            sizes = [ELEM[ty] for ty in ACC_TYPES[case["acc"]]]
+            for i, (op, sj) in enumerate(zip(case["ops"], scheds)):
+                if "unscheduled" in sj:
+                    continue
+                sub = {"kind": "scheduler", "t": tj, "s": None, "checks": [["pos"], ["mem", sizes]]}
+                for v in self.oracle(sub, {"result": sj}):
+                    out.append({"what": f"dart-scheduler, operation #{i} of {len(scheds)} (iteration bounds {op['bounds']}, element sizes "
+                                        f"{sizes}): the emitted dart.schedule (bounds {sj['bounds']}) does not fit: " + v["what"],
+                                "finding": v.get("finding")})
+                if out:
+                    break
         elif kind == "check":
             tn = len(case["t"]["bounds"])
             if impl_out["holds"] and tn > 0 and case["s"]["ops"]:
@@ -455,6 +480,8 @@ class C16(SchedProp):
             return bool(impl_out["holds"])
         if case["kind"] == "scheduler":
             return impl_out["result"] != case["s"]
+        if case["kind"] == "pass":
+            return any("unscheduled" not in x for x in impl_out["schedules"])
         return len(impl_out["results"]) > 0
 
 
